@@ -48,6 +48,7 @@ int lock_id(void *lock);
 // ---- log / fatal
 uint64_t warnings();
 extern std::string last_warning;
+extern std::function<void(int sev, const std::string &msg)> log_tap;	// harness hook (cleared at run begin/end)
 
 template <class F> auto api_guard(const char *what, F &&f) -> decltype(f()) {
 	int before = held();
